@@ -31,7 +31,8 @@ PROBES = ["copy_of_copy", "nice_on_scale_with_living_relative",
           "reversed_domain", "reversed_range", "clamped_scale_checked", "degenerate_domain",
           "pool_size_5", "drop_then_use_relative", "domain_on_aliased", "range_on_aliased",
           "clamp_on_aliased", "magnitude_tiny", "magnitude_huge", "rejected_call_raised",
-          "readonly_op", "unobserved_step", "range_list_edited_in_place_and_passed_again"]
+          "readonly_op", "unobserved_step", "range_list_edited_in_place_and_passed_again",
+          "foreign_library_activity"]
 
 RULE = (
     "Each run draws (from one PRNG seeded by sha256(VERIF_SEED:scale:i)) a magnitude regime "
@@ -116,11 +117,15 @@ def gen_plan(rng, tier):
     nops = rng.randrange(8, 26) if tier == "quick" else rng.randrange(8, 61)
     max_pool = 5 if tier == "quick" else 8
     read_p = rng.choice([0.0, 0.1, 0.25])
+    foreign_p = rng.choice([0, 0, 0, 0.08])
     ops = []
     pool = 1
     for _ in range(nops):
         r = rng.random()
         i = rng.randrange(pool)
+        if foreign_p and rng.random() < foreign_p:
+            ops.append(["foreign", None, rng.choice(["svg", "tex", "linear"])])
+            continue
         if rng.random() < read_p:
             k = rng.choice(["ticks", "tickformat", "call", "invert"])
             if k in ("ticks", "tickformat"):
@@ -181,7 +186,9 @@ def well_formed(plan):
     ops = []
     for op in plan["ops"]:
         op = list(op)
-        if op[0] == "new":
+        if op[0] == "foreign":
+            pass
+        elif op[0] == "new":
             if pool >= cap:
                 continue
             pool += 1
@@ -348,6 +355,22 @@ def check_scale(s, fr, stats):
 
 # ------------------------------------------------------------------ execution (child)
 
+def _foreign_activity(backend):
+    import datetime
+
+    from labella.scale import LinearScale as LS
+    from labella.timeline import TimelineSVG, TimelineTex
+
+    items = [{"time": datetime.datetime(2001, 1, 1 + 3 * i), "width": 30, "text": "t%d" % i} for i in range(4)]
+    if backend == "linear":
+        items = [{"time": 10.0 * i, "width": 30} for i in range(4)]
+        TimelineSVG(items, options={"scale": LS()}).export()
+    elif backend == "tex":
+        TimelineTex(items, options={}).export()
+    else:
+        TimelineSVG(items, options={}).export()
+
+
 def _run(plan):
     from labella.scale import LinearScale
 
@@ -381,14 +404,14 @@ def _run(plan):
     for step, op in enumerate(plan["ops"]):
         kind = op[0]
         target = None
-        if kind != "new":
+        if kind not in ("new", "foreign"):
             if op[1] >= len(pool):
                 raise HarnessError("ill-formed plan: target %d of %d" % (op[1], len(pool)))
             target = pool[op[1]]
         aliased = target is not None and sum(1 for f in family if f == family[op[1]]) > 1
         outcome = "ok"
         new_scale = None
-        readonly = kind in ("ticks", "tickformat", "call", "invert")
+        readonly = kind in ("ticks", "tickformat", "call", "invert", "foreign")
         try:
             if kind == "new":
                 new_scale = LinearScale()
@@ -465,6 +488,11 @@ def _run(plan):
                     outcome = "raise:" + type(e).__name__
                     bump("fault:rejected_call:fired")
                     bump("probe:rejected_call_raised")
+            elif kind == "foreign":
+                # unrelated use of the library in the same process: a small timeline is
+                # constructed and exported; no scale of the pool is involved
+                bump("probe:foreign_library_activity")
+                _foreign_activity(op[2])
             elif kind == "ticks":
                 bump("probe:readonly_op")
                 list(target.ticks(op[2]))
